@@ -470,7 +470,7 @@ def assemble():
             g.gen("C14", "num", "no_ub"))
     section("duration arithmetic (model Tetl.C12): no signed overflow in the representation type", "durations",
             "Tetl.C12 Tetl.C12.Props Tetl.C14", "", g.gen("C12", "duration", "no_ub"))
-    section("constant-evaluated rounding (model Tetl.C13)", "gcem", "Tetl.C13 Tetl.C13.Spec Tetl.C13.Fmt Tetl.C13.Lemmas", "",
+    section("constant-evaluated rounding (model Tetl.C13)", "gcem", "Tetl.C13 Tetl.C13.Spec Tetl.C13.Fmt Tetl.C13.Lemmas Tetl.C13.FmaSqrt", "",
             g.gen("C13", "cmath", "no_ub"))
     section("floating-point classification and rounding (model Tetl.C16)", "floats", "Tetl.C16", "", g.gen("C16", "fp", "no_ub"))
     section("ratio arithmetic and comparison, numeric_limits (model Tetl.C15)", "ratios", "Tetl.C15", "",
